@@ -7,17 +7,17 @@ TECH = {
  "C01": "path-condition implication and an authentication edge cut over the CFG of Packet.from_bytes (boolean abstraction), struct-format and composed-slice agreement, dominance of authentication over effects, thin-wrapper rule for the AES-GCM helpers",
  "C02": "CFG dominance of signature verification over field stores, taint of verified bytes, sibling agreement of the two HKDF derivations, straight-line symbolic store of _recvClientHello (the values held by key, salt and reply fields at the end of each path), control dependence of promotion on token validation; the verifying key by enumeration of its alternatives (reaching definitions and arms of conditional expressions, each under its path conditions)",
  "C03": "who-may-write / who-may-call rules, dominance of the rate cap and of the single sequence increment, folded ring-turn arithmetic, path-condition analysis of the clear-text exemption, retry-mode rule for the exempted hello messages",
- "C04": "interval (comparison-partition) abstract interpretation of BitField.insert per window width; dominance of the duplicate test; origin tracking of retransmitted message numbers; CFG must-pass-through (normal and exceptional edges) of the queue reset between hand-offs; shared interval analysis of SeqNum arithmetic (0 never produced)",
+ "C04": "interval (comparison-partition) abstract interpretation of BitField.insert per window width; dominance of the duplicate test; origin tracking of retransmitted message numbers; partial evaluation of FragmentReceiver.receive on (state, index) pairs (engine/minieval.py); CFG must-pass-through (normal and exceptional edges) of the queue reset between hand-offs; shared interval analysis of SeqNum arithmetic (0 never produced)",
  "C05": "constant-program evaluation of Packet.setMTU per MTU, linear accounting model of the packing loops anchored on the admit statement (CFG conditions, values through temporaries), offset abstraction of the fragment split, cell analysis of the message window, who-may-raise / who-may-discard rules, shared codec obligations",
- "C06": "writer/reader struct-format and slice agreement of the fragment layer, capacity equalities per MTU, who-may-call delivery rules",
+ "C06": "writer/reader struct-format agreement of the fragment layer, partial evaluation of parsePayload on fragments framed with the writer's format (engine/minieval.py), capacity equalities per MTU, who-may-call delivery rules",
  "C07": "sibling cross-check of _handle_ack/_handle_timeout, edge cut for the success verdict, one-shot typestate of RetrySender / FragmentSender, shared capacity, codec and ack-geometry obligations",
  "C08": "interval abstract interpretation of SeqNum.__add__/__sub__/diff over the whole raw range; exhaustive encoder/decoder geometry agreement over all window offsets",
  "C09": "struct-format agreement of header and message framing, cursor model (linear forms) of the multi-message decoder, linear accounting model of the packing loops per MTU against field capacities, possibly-unbound-local analysis of the send paths",
  "C10": "typestate on the connected pool via CFG must-pass-through (including exceptional edges), handler containment, call-graph reachability from foreign thread entry points, key-kind agreement; shared containment / closed-list rules for the liveness of the server loop",
  "C11": "dominance of the block-list test, try/except containment rules, closed list of uncontained calls in the main loop, guarded-reply rules for the hello path, writer/reader agreement of the hello padding length by value (through temporaries)",
- "C12": "name resolution, declared/read attribute agreement between client, context and connection classes, control-dependence sets of the keep-alive and timeout statements compared as condition literals",
+ "C12": "name resolution, who-may-call rule for the start of the connect deadline (call graph), declared/read attribute agreement between client, context and connection classes, control-dependence sets of the keep-alive and timeout statements compared as condition literals",
  "C13": "writer/reader table folding and struct-format agreement; interval analysis of serialize_int against struct ranges; dispatch on type(value) by value through temporaries; edge cut for the TypeError fall-through; reaching-definition identity of parameter and packed value in the scalar writers",
- "C14": "decoder call graph; loop-bound and consumption rules, forward-only stream rule (no function of the graph repositions a stream), allocation-sink scan with positive control, closed-universe dispatch rules (table dispatch only, no computed callable)",
+ "C14": "decoder call graph; loop-bound and consumption rules, forward-only stream rule (no function of the graph repositions a stream), allocation-sink scan with positive control, no decompressor reachable from the peer-data entry points, closed-universe dispatch rules (table dispatch only, no computed callable)",
  "C15": "abstract interpretation of the toJson / fromJson container dispatch over a term language (rules/jsonshape.py), decision-path sets of the basic converters, sibling agreement of the enum name maps",
  "C16": "partial evaluation of Router.patternToRegex on constant patterns (engine/minieval.py, the program is not run) and differencing of the built texts into per-kind fragments; regular-expression AST analysis (FIRST sets, capture counts, character classes) of the fragments; Router.getRoute decided by partial evaluation on a model route table with recording stand-in pattern objects (order of tries, first match, token/group pairing), structural no-pre-filter rule on its loop; fresh-container rule for the route table",
  "C17": "containment decided by partial evaluation of path_join_safe with os.path replaced by POSIX string functions on a root x name family (engine/minieval.py); fallback edge cut over the CFG of path_join_safe: with the out-edges of the classified containment tests removed no return is reachable; def-use identity of the guarded and the returned value; the component test (dot segments, backslashes) decided by partial evaluation of the function up to os.path.join on a family of file names (engine/minieval.py)",
